@@ -40,7 +40,7 @@ pub fn one(path: &str) -> String {
     match tlsh::hash_file(p) {
         Ok(h) => format!("{h}"),
         Err(tlsh::GeneratorOrIOError::GeneratorError(e)) => format!("Err({e:?})"),
-        Err(tlsh::GeneratorOrIOError::IOError(e)) => format!("IOError({:?})", e.kind()),
+        Err(tlsh::GeneratorOrIOError::IOError(e)) => format!("IOError({:?}, os={:?})", e.kind(), e.raw_os_error()),
     }
 }
 
